@@ -258,6 +258,20 @@ CLAIMED["C12"] = dict(
     technique="Lean 4 proof (CAS-list system invariants lifted to split-order and skip-list systems) + E-SHIM lock-step replay",
     design="§3 C12")
 
+CLAIMED["C13"] = dict(
+    text="Lean 4 theorems: heapify/reheap keep the heap order and the multiset (top removed); for every heap state and every batch of operations "
+         "formed by the aggregator there is an order of the batch's (pairwise concurrent) operations under which the sequential priority-queue "
+         "specification gives exactly the observed results and final contents — every successful pop returns a maximal element at its place in "
+         "that order, a failed pop saw an empty queue; conservation; a throwing push-side copy fails only its own operation (partial: the "
+         "pop-side assignment throw escapes the handler as coded — negation witness proved, recorded as a known finding); aggregator: batches "
+         "are handled one at a time, every submitted operation is in exactly one batch and gets its status exactly once (any number of threads, "
+         "all schedules). Tie: white-box differential on the real handle_operations / heapify / reheap (random heaps x batches, throwing copy at "
+         "each position), E-SHIM access-level validation of the aggregator protocol, independent monitors incl. a priority-queue "
+         "linearizability checker on small histories.",
+    note="Trusted: Lean kernel, standard axioms, harness/c13, E-SHIM, sampled correspondence.",
+    technique="Lean 4 proof (heap lemmas, batch linearizability by permutation, N-thread aggregator invariant) + white-box differential + E-SHIM",
+    design="§3 C13")
+
 NOT_YET = "check not built yet in this round (planned: DESIGN.md §3); no claim is made"
 
 
